@@ -7,6 +7,21 @@ func (s *Store) rangeOf(t *Term) (lo, hi uint64) {
 	if t.S.K != SBV {
 		return 0, 1
 	}
+	if t.Op == OConst {
+		return t.Val, t.Val
+	}
+	if r, ok := s.ranges[t.ID]; ok {
+		return r[0], r[1]
+	}
+	lo, hi = s.rangeOf1(t)
+	if s.ranges == nil {
+		s.ranges = map[int][2]uint64{}
+	}
+	s.ranges[t.ID] = [2]uint64{lo, hi}
+	return
+}
+
+func (s *Store) rangeOf1(t *Term) (lo, hi uint64) {
 	full := mask(t.S.W)
 	switch t.Op {
 	case OConst:
